@@ -17,8 +17,11 @@ Local Open Scope Z_scope.
 Inductive fkind := KBytesIO | KRealFile.
 
 Definition lenz (d : str) : Z := Z.of_nat (length d).
-Definition skipz (p : Z) (d : str) : str := skipn (Z.to_nat p) d.
-Definition takez (n : Z) (d : str) : str := firstn (Z.to_nat n) d.
+(** [d[p:]] and [d[:n]] for non-negative [p], [n].  The count is clamped to the
+    length of the list before it is turned into a [nat] (same result; a size
+    field such as 9999999999 must not become a unary number). *)
+Definition skipz (p : Z) (d : str) : str := skipn (Z.to_nat (Z.min p (lenz d))) d.
+Definition takez (n : Z) (d : str) : str := firstn (Z.to_nat (Z.min n (lenz d))) d.
 
 (** [fp.read(n)] for [n >= 0] at position [pos >= 0]: the bytes and the new
     position.  At or beyond the end of the file the result is empty and the
@@ -70,9 +73,10 @@ Fixpoint digits_us (s : str) (prev_digit : bool) : option str :=
 Definition py_int (s : str) : result Z :=
   let t := strip_by bytes_isspace s in
   let '(neg, u) := match t with
-                   | 43%N :: r => (false, r)
-                   | 45%N :: r => (true, r)
-                   | _ => (false, t)
+                   | c :: r => if (c =? 43)%N then (false, r)          (* '+' *)
+                               else if (c =? 45)%N then (true, r)      (* '-' *)
+                               else (false, t)
+                   | [] => (false, t)
                    end in
   match digits_us u false with
   | Some ds => let v := Z.of_N (parse_dec ds) in Ok (if neg then - v else v)
@@ -273,13 +277,6 @@ Definition open_archive (mode : N) (d : str) : result (list member * arstate) :=
   let (ms, pos) := r in
   Ok (ms, mkAr (kind_of_mode mode) (byname_of_mode mode) d pos
               (map (fun m => (init_state m, None)) ms)).
-
-Fixpoint list_set {A} (l : list A) (i : nat) (a : A) : list A :=
-  match l, i with
-  | [], _ => []
-  | _ :: r, O => a :: r
-  | x :: r, S i' => x :: list_set r i' a
-  end.
 
 (** What is observed after each call: its result, the member's [tell()], and
     (shared-file modes) the position of the caller's file object. *)
